@@ -21,7 +21,7 @@ func runC10(p *Program, r *Report) {
 	ruleR101(p, r)
 	r.Rule("R10.2", "E2", 5, "same shape: each type-specific generator returns a value built from a fresh buffer whose length is the length of the value it replaces (strings, bytes, e-mail) or the width of the integer type (4/8 bytes)")
 	ruleR102(p, r)
-	r.Rule("R10.3", "E3", 4, "insert-if-absent in one critical section: every TokenStorage.Save either delegates to another TokenStorage.Save with the same id, or reports ErrTokenExists on the 'exists' edge with lookup and insertion of the same key inside one lock / one write transaction / one atomic set-if-absent call")
+	r.Rule("R10.3", "E3", 4, "insert-if-absent in one critical section: every TokenStorage.Save either delegates to another TokenStorage.Save with the same id, or reports ErrTokenExists on the 'exists' edge with lookup and insertion of the same key inside one lock / one write transaction / one atomic set-if-absent call; the refusal is unconditional (no path from the 'exists' edge reaches the insertion)")
 	ruleR103(p, r)
 	r.Rule("R10.4", "E3", 6, "consistent mode: the value->token record is looked up and saved under the same key, the key is derived from value, context and type, a lost race (ErrTokenExists) leads back to the lookup at most once, a hit returns the stored token and a successful save returns exactly the token that was saved")
 	ruleR104(p, r)
@@ -430,6 +430,10 @@ func saveIsInsertIfAbsent(p *Program, fn *ssa.Function, errExists types.Object) 
 			}
 			if !sameKey {
 				return false, "existence is checked under a different key than the one inserted"
+			}
+			// refusal is unconditional: nothing on the 'exists' side leads to the insertion (a found record, whatever its metadata, is never replaced)
+			if reaches(a, ins.Block(), nil) {
+				return false, "a record found under the key can still be overwritten: a path from the 'exists' edge reaches the insertion instead of returning ErrTokenExists (one token handed out for two values)"
 			}
 			return true, "lookup and insertion of the same key in " + how + "; the 'exists' edge returns ErrTokenExists"
 		}
@@ -1025,6 +1029,8 @@ func init() {
 	mut("C10", "string token one byte longer than the original", "pseudonymization/tokenizer.go", "func (a anonymizer) AnonymizeStr(value string, context common.TokenContext) (string, error) {\n	data := make([]byte, len(value))", "func (a anonymizer) AnonymizeStr(value string, context common.TokenContext) (string, error) {\n	data := make([]byte, len(value)+1)", "R10.2", "AnonymizeStr")
 	mut("C10", "int32 token generated from 8 random bytes", "pseudonymization/tokenizer.go", "	data := make([]byte, 32/8)", "	data := make([]byte, 64/8)", "R10.2", "AnonymizeInt32")
 	mut("C10", "memory store overwrites an existing record", "pseudonymization/storage/memory.go", "	_, ok = ctxMap[idStr]\n	if ok {\n		return common.ErrTokenExists\n	}\n	ctxMap[idStr] =", "	ctxMap[idStr] =", "R10.3", "MemoryTokenStorage")
+	mut("C10", "memory store lets a disabled record be replaced (seed C10-5)", "pseudonymization/storage/memory.go", "	_, ok = ctxMap[idStr]\n	if ok {\n		return common.ErrTokenExists\n	}", "	if existing, ok := ctxMap[idStr]; ok && !existing.metadata.Disabled {\n		return common.ErrTokenExists\n	}", "R10.3", "MemoryTokenStorage")
+	mut("C10", "bolt store refuses only a non-empty existing record", "pseudonymization/storage/boltdb.go", "		if ctxBucket.Get(id) != nil {\n			return common.ErrTokenExists\n		}", "		if old := ctxBucket.Get(id); old != nil && len(old) > 0 {\n			return common.ErrTokenExists\n		}", "R10.3", "boltdbStorage")
 	mut("C10", "memory store checks under the read lock and inserts later", "pseudonymization/storage/memory.go", "func (m *MemoryTokenStorage) Save(id []byte, context common.TokenContext, data []byte) error {\n	m.mutex.Lock()\n	defer m.mutex.Unlock()", "func (m *MemoryTokenStorage) Save(id []byte, context common.TokenContext, data []byte) error {\n	m.mutex.RLock()\n	defer m.mutex.RUnlock()", "R10.3", "MemoryTokenStorage")
 	mut("C10", "bolt store overwrites an existing record", "pseudonymization/storage/boltdb.go", "		if ctxBucket.Get(id) != nil {\n			return common.ErrTokenExists\n		}\n		value := common.EmbedMetadata(data, common.NewTokenMetadata())", "		value := common.EmbedMetadata(data, common.NewTokenMetadata())", "R10.3", "boltdbStorage")
 	mut("C10", "redis store ignores the 'not set' answer", "pseudonymization/storage/redis.go", "	if !set {\n		return common.ErrTokenExists\n	}\n	return nil\n}", "	_ = set\n	return nil\n}", "R10.3", "RedisStorage")
